@@ -380,12 +380,35 @@ class Externals(object):
         h = self.regex_handlers.get("bitxor")
         if h is not None:
             return h(interp, a, b, node)
+        if _is_intlike(a) and _is_intlike(b):
+            # `^` on ints: the uninterpreted function int.xor with two ASSUMED facts of the builtin (A2): xor with 0 is the
+            # identity, and the xor of two values in 0..255 is in 0..255.  The contract of computeChecksum states the result
+            # as the left fold of this same function over the bytes.
+            interp.ctx.assumed.add("A2:int ^ int is the uninterpreted function int.xor with 0 ^ b = b and 0..255 closed under it")
+            za, zb = _to_zint(a), _to_zint(b)
+            r = INT_XOR(za, zb)
+            interp.ctx.assume(z3.Implies(za == 0, r == zb), definitional=True)
+            interp.ctx.assume(z3.Implies(z3.And(za >= 0, za <= 255, zb >= 0, zb <= 255), z3.And(r >= 0, r <= 255)), definitional=True)
+            return r
         raise Unsupported("^ on %r, %r" % (a, b), node)
 
     def bytearray(self, interp, v, node):
         h = self.regex_handlers.get("bytearray")
         if h is not None:
             return h(interp, v, node)
+        if isinstance(v, _Encoded):
+            # bytearray(text.encode('utf-8')): a sequence of utf8.len(text) integers in 0..255, uninterpreted functions of
+            # the text (A2; that they are the UTF-8 code units is not used by any clause)
+            interp.ctx.assumed.add("A2:bytearray(text.encode('utf-8')) is a sequence of utf8.len(text) >= 0 integers in 0..255 (uninterpreted functions of the text)")
+            zs = z3.StringVal(v.s) if isinstance(v.s, str) else sstr_to_z3(v.s)
+            n = UTF8_LEN(zs)
+            interp.ctx.assume(n >= 0, definitional=True)
+
+            def at(k, zs=zs):
+                e = UTF8_BYTE(zs, k if not isinstance(k, int) else z3.IntVal(k))
+                interp.ctx.assume(z3.And(e >= 0, e <= 255), definitional=True)
+                return e
+            return SymSeq(n, at, name="utf8")
         raise Unsupported("bytearray(%r)" % (v,), node)
 
     def to_float(self, interp, v, node):
@@ -500,6 +523,27 @@ class _Uuid(Model):
     def to_str(self, interp):
         interp.ctx.assumed.add("A2:str(uuid.uuid4()) is an unconstrained fresh string")
         return interp.ctx.string("uuid4", record=False)
+
+
+UTF8_LEN = z3.Function("utf8.len", z3.StringSort(), z3.IntSort())
+UTF8_BYTE = z3.Function("utf8.byte", z3.StringSort(), z3.IntSort(), z3.IntSort())
+INT_XOR = z3.Function("int.xor", z3.IntSort(), z3.IntSort(), z3.IntSort())
+# left fold of ^ over the first k bytes, starting from 0 (spec function of GcodeParser.computeChecksum)
+UTF8_XORFOLD = z3.RecFunction("utf8.xorfold", z3.StringSort(), z3.IntSort(), z3.IntSort())
+_xs, _xk = z3.String("xs!"), z3.Int("xk!")
+z3.RecAddDefinition(UTF8_XORFOLD, [_xs, _xk], z3.If(_xk <= 0, z3.IntVal(0), INT_XOR(UTF8_XORFOLD(_xs, _xk - 1), UTF8_BYTE(_xs, _xk - 1))))
+
+
+def _is_intlike(v):
+    if isinstance(v, bool):
+        return False
+    if isinstance(v, int):
+        return True
+    return z3.is_expr(v) and z3.is_int(v)
+
+
+def _to_zint(v):
+    return z3.IntVal(v) if isinstance(v, int) else v
 
 
 class _Encoded(Model):
